@@ -1,22 +1,32 @@
 """C16 — caches: capacity, policy/cache agreement, read-after-write, write-back, soft TTL.
 
-Tie to /repo:
-  * family `policy`: arbitrary call sequences on the nine real eviction-policy objects;
-    return value and complete internal state compared with C16/Model.v after every call.
-  * family `cached`: CachedStore workloads inside a real Simulation (overlapping
-    get/put/delete/invalidate/invalidate_all/flush on a few keys, capacity 1-3, all nine
-    policies, write-through and write-back).  A driver entity steps every generator method
-    by hand (exactly as CacheWarmer does) and records, for every segment between two
-    yields: which operation ran, what it yielded/returned and the complete state
-    afterwards.  The model replays the recorded schedule inside Coq.
+Tie to /repo (six families; in every family the implementation's observations after EVERY call /
+generator segment are compared with the model inside Coq):
+  * `policy`:  call sequences on the nine real eviction-policy objects (cache-like and arbitrary);
+    return value and complete internal state.
+  * `cached`:  CachedStore workloads inside a real Simulation (overlapping get/put/delete/invalidate/
+    invalidate_all/flush on a few keys, capacity 1-3, all nine policies, write-through and write-back).
+    A driver entity steps every generator method by hand (as CacheWarmer does) and records, for every
+    segment between two yields: which operation ran, what it yielded/returned, the complete state.
+  * `sttl`:    SoftTTLCache workloads (fresh/stale/expired zones at exact boundaries, background refresh
+    delivered by the real engine and recorded through a wrapper of handle_event, coalescing, foreign
+    writers of the backing store).
+  * `mt`:      MultiTierCache over two CachedStore tiers (any two policies, all promotion policies,
+    direct tier-2 reads).
+  * `pcache`:  PageCache read_page/write_page/flush, overlapping loads and evictions.
+  * `wpolicy`: WriteThrough/WriteBack/WriteAround call sequences.
 
-RNG draws (RandomEviction.choice, SampledLRU.sample), the iteration order of the dirty-key
-set in flush() and the TTL policy's clock readings are recorded from the implementation
-and fed to the model as oracle inputs; the model checks that they are possible ones.
+RNG draws (RandomEviction.choice, SampledLRU.sample), the iteration order of the dirty-key set in
+flush() and the TTL policy's clock readings are recorded from the implementation and fed to the model
+as oracle inputs; the model checks that they are possible ones.
 
-Private attributes read: CachedStore._cache/_dirty_keys/_eviction_policy, KVStore._data,
-the policies' tracking structures (_order, _counts, _min_count, _insert_times, _keys,
-_probationary, _protected, _access_times, _clock, _ref_bits, _hand, _a1in, _a1out, _am).
+The property oracles (oracle_*) evaluate the C16 statement on the recorded observations only:
+capacity and policy-key agreement after every segment, a regular-register check of every get against
+the intervals of the writes, step-wise preservation of dirty data, age of every served soft-TTL entry.
+
+Private attributes read: CachedStore._cache/_dirty_keys/_eviction_policy, KVStore._data, the policies'
+tracking structures, SoftTTLCache._cache/_refreshing_keys/_access_order, MultiTierCache._access_counts,
+PageCache._pages, WriteAround._invalidated_keys.
 """
 from __future__ import annotations
 
@@ -1206,6 +1216,68 @@ def attribute_pc(c, obs, f):
     return {"pc-overlap": "C16-pagecache-overlap"}.get(f.get("mechanism"))
 
 
+
+# --------------------------------------------------------------------------- family: wpolicy (write_policies.py)
+IMPORTS_WP = "From HS Require Import Base.Prelude C16.Model C16.ModelWP."
+
+
+def gen_wp(rng):
+    kind = rng.choice(["through", "back", "back", "around"])
+    ops = []
+    for _ in range(rng.randint(1, 25)):
+        r = rng.random()
+        if r < 0.6:
+            ops.append(["write", rng.randrange(5)])
+        elif r < 0.85:
+            ops.append(["flush", [rng.randrange(5) for _ in range(rng.randint(0, 4))]])
+        else:
+            ops.append(["take"])
+    return dict(kind=kind, max_dirty=rng.randint(1, 4), ops=ops)
+
+
+def impl_wp(c):
+    from happysimulator.components.datastore import write_policies as wp
+    p = {"through": wp.WriteThrough, "around": wp.WriteAround}.get(c["kind"], lambda: wp.WriteBack(max_dirty=c["max_dirty"]))()
+    out = []
+    for o in c["ops"]:
+        taken = None
+        if o[0] == "write":
+            p.on_write(K(o[1]), 0)
+        elif o[0] == "flush":
+            p.on_flush([K(k) for k in o[1]])
+        elif hasattr(p, "get_keys_to_invalidate"):
+            taken = [unk(k) for k in p.get_keys_to_invalidate()]
+        inval = [unk(k) for k in getattr(p, "_invalidated_keys", [])]
+        out.append(dict(wt=bool(p.should_write_through()), sf=bool(p.should_flush()),
+                        keys=sorted(unk(k) for k in p.get_keys_to_flush()), inval=inval, taken=taken))
+    return out
+
+
+def encode_wp(c, obs):
+    kd = {"through": Ctor("WThrough"), "back": Ctor("WBack", c["max_dirty"]), "around": Ctor("WAround")}[c["kind"]]
+    tr = []
+    for o, r in zip(c["ops"], obs):
+        op = Ctor("WOnWrite", o[1]) if o[0] == "write" else (Ctor("WOnFlush", _zl(o[1])) if o[0] == "flush" else Ctor("WTakeInval"))
+        tr.append((op, (r["wt"], r["sf"], _zl(r["keys"]), _zl(r["inval"]))))
+    return term((kd, tr if tr else Raw("[]")))
+
+
+def oracle_wp(c, obs):
+    """WriteBack: a written key stays pending until a flush names it."""
+    if c["kind"] != "back":
+        return []
+    pending = set()
+    for i, (o, r) in enumerate(zip(c["ops"], obs)):
+        if o[0] == "write":
+            pending.add(o[1])
+        elif o[0] == "flush":
+            pending -= set(o[1])
+        if sorted(pending) != r["keys"]:
+            return [dict(clause="write-back policy: a written key is pending until it is flushed", step=i,
+                         expected=sorted(pending), got=r["keys"])]
+    return []
+
+
 FAMILIES = [
     Family("policy", IMPORTS, "ok_policy", "pkind * list (pop_ * option Z * list (list Z))", gen_policy, impl_policy,
            encode_policy, oracle_policy, lambda c, o: any(x[0] == "evict" for x in c["ops"]),
@@ -1224,9 +1296,11 @@ FAMILIES = [
            encode_pc, oracle_pc, lambda c, o: any(e["snap"]["stats"][2] > 0 for e in o["log"][-1:]),
            attribute_pc, parallel=True,
            describe=lambda c: f"cap={c['cap']},ra={c['ra']},{c['style']}"),
+    Family("wpolicy", IMPORTS_WP, "ok_wp", "wkind * list (wop * wobs)", gen_wp, impl_wp,
+           encode_wp, oracle_wp, lambda c, o: any(x[0] == "flush" for x in c["ops"]), describe=lambda c: c["kind"]),
 ]
 
-PROOF_FILES = ["C16/Model.v", "C16/Lists.v", "C16/Policies.v", "C16/Store.v", "C16/Races.v", "C16/Seq.v", "C16/ModelTTL.v", "C16/SoftTTL.v", "C16/ModelMT.v", "C16/MT.v", "C16/ModelPC.v", "C16/PC.v", "C16/Props.v"]
+PROOF_FILES = ["C16/Model.v", "C16/Lists.v", "C16/Policies.v", "C16/Store.v", "C16/Races.v", "C16/Seq.v", "C16/ModelTTL.v", "C16/SoftTTL.v", "C16/ModelMT.v", "C16/MT.v", "C16/ModelPC.v", "C16/PC.v", "C16/ModelWP.v", "C16/Props.v"]
 
 TRUSTED = [
     "Coq 8.16.1 kernel (coqc, vm_compute for refutation witnesses and case evaluation); no native_compute",
@@ -1242,14 +1316,14 @@ def _fast_coq_cases(ctx):
     from hsverif import coq
 
     def coq_cases(tag, imports, ok_fn, case_type, cases):
-        return coq.eval_cases(f"{ctx.pid}_{tag}", imports, ok_fn, case_type, cases, shard=40, workers=12)
+        return coq.eval_cases(f"{ctx.pid}_{tag}", imports, ok_fn, case_type, cases, shard=12, workers=12, timeout=900)
     ctx.coq_cases = coq_cases
 
 
 def run(ctx):
     _fast_coq_cases(ctx)
     ctx.prove(PROOF_FILES, allowed_axioms=(), trusted_base=TRUSTED)
-    counts = [ctx.n(80, 1000), ctx.n(50, 500), ctx.n(50, 500), ctx.n(40, 400), ctx.n(50, 500)]
+    counts = [ctx.n(80, 1000), ctx.n(50, 500), ctx.n(50, 500), ctx.n(40, 400), ctx.n(50, 500), ctx.n(60, 600)]
     # The families are independent; run them side by side (most of the time is spent waiting for coqc and for
     # the worker processes).  Each family draws from its own generator derived from the run's seed, so the
     # inputs do not depend on thread scheduling.
@@ -1299,8 +1373,15 @@ def run(ctx):
 
     with ThreadPoolExecutor(max_workers=len(FAMILIES)) as ex:
         stats = list(ex.map(one, plans))
-    merge_stats(ctx, stats, "random structured op sequences; non-trivial = contains an eviction; distinct by JSON of the input")
+    merge_stats(ctx, stats, "random structured op sequences / timed workloads over 2-6 keys with capacity 1-3; non-trivial = the case evicts (policy, cached, pcache), serves a stale hit or evicts (sttl), hits tier 2 or promotes (mt), flushes (wpolicy); distinct by JSON of the input")
     ctx.finish_obligations()
+    ctx.assumptions += [
+        "read-after-write is proved for non-overlapping operations (c16_sequential_read_after_write_partial) and refuted for a miss-fill overlapping a write (C16-fill-race, C16-mt-stale-install); the oracle checks it on every generated interleaving",
+        "write-back preservation is proved per segment except explicit invalidation and the two recorded races (c16_writeback_preserved_partial); invalidate of a dirty key and flush-vs-put are known findings",
+        "soft-TTL hard bound is about the age at the instant a segment decides to serve a cached entry (the value is handed over after cache_read_latency)",
+        "PageCache: capacity theorem for non-overlapping operations only; overlapping operations exceed capacity (C16-pagecache-overlap); flush overlapping other operations is not modelled",
+        "MultiTierCache sequential write visibility is checked by the oracle only (no theorem); CacheWarmer is not modelled",
+    ]
 
 
 def replay(data):
